@@ -401,7 +401,34 @@ func buildEntries() []Entry {
 		kc := keycredential.NewKeyCredential(key.KeyCredentialVersion{Value: key.KeyCredentialVersion_2}, "", rsa, g, kutils.NewDateTime(132000000000000000), kutils.NewDateTime(132000000000000001))
 		kcb = must(kc.ToBytes())
 	})
-	add("keycredential.KeyCredential.FromBytes", nonNil(kcb), func(in []byte) { (&keycredential.KeyCredential{}).FromBytes(in) })
+	// variants of the blob whose decoding takes other branches: every version, every value of the
+	// one-byte entries (usage, source) — the time stamp and identifier formats depend on them
+	kcSeeds := nonNil(kcb)
+	if kcb != nil {
+		for _, ver := range []uint32{0, 0x100, 0x200, 0x300} {
+			for _, src := range []byte{0, 1, 2, 0xFF} {
+				for _, usage := range []byte{1, 2, 7, 0xFF} {
+					v := append([]byte{}, kcb...)
+					v[0], v[1], v[2], v[3] = byte(ver), byte(ver>>8), byte(ver>>16), byte(ver>>24)
+					for off := 4; off+3 <= len(v); {
+						n := int(v[off]) | int(v[off+1])<<8
+						typ := v[off+2]
+						if n == 1 && off+3 < len(v)+1 && off+3 <= len(v)-1 {
+							if typ == 4 {
+								v[off+3] = usage
+							}
+							if typ == 5 {
+								v[off+3] = src
+							}
+						}
+						off += 3 + n
+					}
+					kcSeeds = append(kcSeeds, v)
+				}
+			}
+		}
+	}
+	add("keycredential.KeyCredential.FromBytes", kcSeeds, func(in []byte) { (&keycredential.KeyCredential{}).FromBytes(in) })
 	dnSeed := []byte("B:8:01020304:CN=user,DC=corp,DC=local")
 	if kcb != nil {
 		dnSeed2 := []byte(fmt.Sprintf("B:%d:%X:CN=u,DC=c", 2*len(kcb), kcb))
